@@ -143,6 +143,81 @@ async def _ttl(loop, case, out: Outcome):
     out.nontrivial = band != "unconstrained" and (abs(case["eps_us"]) <= 1_000_000 or kind not in ("immediate", "no-ttl"))
 
 
+# ------------------------------------------------------------------ a consumer that has been idle for a while
+
+
+@st.composite
+def idle_case(draw, broker):
+    """The consumer has been polling an empty queue for some time when a message arrives that expired a moment ago (or is still
+    clearly alive).  Whatever the consumer cached while idle, the expired one is not handed out."""
+    return {"broker": broker, "seed": draw(st.integers(0, 2**16)), "idle_us": draw(st.integers(50_000, 3_500_000)),
+            "ttl_us": draw(st.sampled_from([1_000_000, 2_500_000, 60_000_000])),
+            # how long ago it expired at the moment it is enqueued (negative: so much is still left)
+            "expired_by_us": draw(st.one_of(st.integers(1_000, 1_500_000), st.sampled_from([2_000, 300_000, 900_000, -8_000_000]))),
+            "prio": draw(st.sampled_from([0, 5, 9])), "phase_us": draw(st.integers(0, 999_999))}
+
+
+async def _idle(loop, case, out: Outcome):
+    from repid import MessageCategory
+    from repid.data._key import RoutingKey
+    from repid.data._parameters import Parameters
+
+    reset_globals()
+    env = Env(case["broker"], loop, case["seed"])
+    conn = env.connection("c0", None, buckets=False)
+    await conn.connect()
+    b = conn.message_broker
+    await b.queue_declare("qi")
+    await asyncio.sleep(case["phase_us"] / 1e6)
+    nc = b.get_consumer("qi", None, None, MessageCategory.NORMAL)
+    await nc.start()
+    got: list = []
+
+    async def consumer():
+        while True:
+            k, _p, _q = await nc.consume()
+            got.append((k.id_, loop.time()))
+            await b.ack(k)
+
+    ct = asyncio.ensure_future(consumer())
+    await asyncio.sleep(case["idle_us"] / 1e6)
+    now = vclock.VDateTime.now()
+    ttl = timedelta(microseconds=case["ttl_us"])
+    ts = now - ttl - timedelta(microseconds=case["expired_by_us"])
+    expiry = vclock.secs(ts) + ttl.total_seconds()
+    t_enq = loop.time()
+    await b.enqueue(RoutingKey(topic="t0", queue="qi", priority=case["prio"], id_="x1"), "p", Parameters(timestamp=ts, ttl=ttl))
+    await asyncio.sleep(2.5)
+    ct.cancel()
+    await asyncio.gather(ct, return_exceptions=True)
+    await nc.finish()
+    await asyncio.sleep(0.2)
+    kinds = sorted(p.kind for p in env.probe().get("x1", []))
+    tag = (f"message with ttl {ttl}, enqueued at {t_enq:.6f} to a consumer idle for {case['idle_us'] / 1e6:.3f}s, expiry {expiry:.6f} "
+           f"({'expired ' + str(case['expired_by_us']) + 'us before' if case['expired_by_us'] > 0 else 'alive'})")
+    if case["expired_by_us"] > 0:
+        if got:
+            out.v("expired-delivered", f"{tag}: handed to the consumer at {got[0][1]:.6f}", broker=case["broker"], idle=True)
+        elif kinds != ["dead"]:
+            out.v("expired-not-dead", f"{tag}: expected in the dead-letter category, found {kinds}", broker=case["broker"], idle=True)
+    else:
+        if not got:
+            out.v("live-not-delivered", f"{tag}: not delivered within 2.5 s; places {kinds}", broker=case["broker"], idle=True)
+    out.nontrivial = 0 < case["expired_by_us"] < 1_000_000 and case["idle_us"] > 300_000
+    out.cls("broker-" + case["broker"], "expired-on-arrival" if case["expired_by_us"] > 0 else "alive-on-arrival",
+            "idle>1s" if case["idle_us"] > 1_000_000 else "idle<=1s")
+
+
+def run_idle(case: dict) -> Outcome:
+    out = Outcome()
+    try:
+        vclock.run(lambda loop: _idle(loop, case, out), max_steps=400_000)
+    except (vclock.StepLimit, vclock.Deadlock) as e:
+        out.inconclusive = True
+        out.info["watchdog"] = str(e)
+    return out
+
+
 def _judge(out, case, env, loop, id_, got, pr_end, pr_after, params, expiry, due, t_c, t_end, slack, lag, kind):
     kinds_at_end = sorted(p.kind for p in pr_end.get(id_, []))
     places = pr_after.get(id_, [])
@@ -281,6 +356,9 @@ CHECK = Check(
         SubCheck("ttl-mem", _t("mem"), run_ttl, quick=80, thorough=2500),
         SubCheck("ttl-redis", _t("redis"), run_ttl, quick=60, thorough=2000),
         SubCheck("ttl-amqp", _t("amqp"), run_ttl, quick=60, thorough=2000),
+        SubCheck("idle-mem", lambda: idle_case("mem"), run_idle, quick=25, thorough=800),
+        SubCheck("idle-redis", lambda: idle_case("redis"), run_idle, quick=15, thorough=500),
+        SubCheck("idle-amqp", lambda: idle_case("amqp"), run_idle, quick=15, thorough=500),
         SubCheck("worker-mem", _w("mem"), run_worker, quick=10, thorough=300),
         SubCheck("worker-redis", _w("redis"), run_worker, quick=10, thorough=300),
         SubCheck("worker-amqp", _w("amqp"), run_worker, quick=10, thorough=300),
